@@ -237,3 +237,159 @@ Proof.
       apply Forall_app in Hne as [_ Hne]. inversion Hne; subst. eapply kthb_body_exn; eauto.
   - inversion H; subst. eapply kth_header_exn; eauto.
 Qed.
+
+(* ---------- dimacs ---------- *)
+(* token-level reading of one line: the problem line "p edge n m", an edge line "e u v" *)
+Inductive dm_class := DBlank | DComment | DProblem | DEdge | DOther.
+Definition dm_kind (raw : gt_str) : dm_class :=
+  match gt_strip raw with
+  | [] => DBlank
+  | c :: _ => if Ascii.eqb c gt_c then DComment else if Ascii.eqb c gt_p then DProblem
+              else if Ascii.eqb c gt_e then DEdge else DOther
+  end.
+Definition dm_ppair (raw : gt_str) : option (Z * Z) :=
+  match dm_kind raw with
+  | DProblem =>
+    match gt_split_ws (gt_strip raw) with
+    | [_; fmt; ns; ms] =>
+      if gt_str_eqb fmt gio_edge_word then
+        match gt_int ns, gt_int ms with Some n, Some m => Some (n, m) | _, _ => None end
+      else None
+    | _ => None
+    end
+  | _ => None
+  end.
+Definition dm_epair (raw : gt_str) : option (Z * Z) :=
+  match dm_kind raw with
+  | DEdge =>
+    match gt_split_ws (gt_strip raw) with
+    | [_; v; w] => match gt_int v, gt_int w with Some a, Some b => Some (a, b) | _, _ => None end
+    | _ => None
+    end
+  | _ => None
+  end.
+Definition opt_list {A} (o : option A) : list A := match o with Some a => [a] | None => [] end.
+Definition dm_ppairs (ls : list gt_str) : list (Z * Z) := flat_map (fun l => opt_list (dm_ppair l)) ls.
+Definition dm_epairs (ls : list gt_str) : list (Z * Z) := flat_map (fun l => opt_list (dm_epair l)) ls.
+
+Lemma dm_line_inv k st raw st' : gio_dimacs_line k st raw = GOk st' ->
+  (dm_ppair raw = None /\ dm_epair raw = None /\ ds_G st' = ds_G st /\ ds_m st' = ds_m st /\ ds_cnt st' = ds_cnt st)
+  \/ (exists n m, dm_ppair raw = Some (n, m) /\ dm_epair raw = None /\ ds_G st = None /\ 0 <= n /\
+                  ds_G st' = Some (mkIOG k (ds_name st) n 0 []) /\ ds_m st' = m /\ ds_cnt st' = ds_cnt st)
+  \/ (exists G e, dm_epair raw = Some e /\ dm_ppair raw = None /\ ds_G st = Some G /\ edge_ok G e /\
+                  ds_G st' = Some (gio_with_edges G (gio_insert (edge_norm (io_kind G) e) (io_edges G))) /\
+                  ds_m st' = ds_m st /\ ds_cnt st' = ds_cnt st + 1).
+Proof.
+  unfold gio_dimacs_line, dm_ppair, dm_epair, dm_kind.
+  destruct (gt_strip raw) as [|c t] eqn:Es; [discriminate|].
+  destruct (Ascii.eqb c gt_c) eqn:Ec.
+  { intros H. inversion H; subst. left. cbn. auto. }
+  destruct (Ascii.eqb c gt_p) eqn:Ep.
+  { destruct (ds_G st) eqn:EG; [discriminate|].
+    destruct (gt_split_ws (c :: t)) as [|t0 [|fmt [|ns [|ms [|x y]]]]]; try discriminate.
+    destruct (gt_str_eqb fmt gio_edge_word); cbn [negb]; [|discriminate].
+    destruct (gt_int ns) as [n|]; [|discriminate]. destruct (gt_int ms) as [m|]; [|discriminate].
+    destruct (gio_new k (ds_name st) n 0) as [G0|] eqn:En; [|discriminate]. cbn [gio_bind].
+    intros H. inversion H; subst. apply new_inv in En as (Hn & _ & ->).
+    right. left. exists n, m. cbn. auto 10. }
+  destruct (Ascii.eqb c gt_e) eqn:Ee.
+  { destruct (ds_G st) as [G|] eqn:EG; [|discriminate].
+    destruct (gt_split_ws (c :: t)) as [|t0 [|v [|w [|x y]]]]; try discriminate.
+    destruct (gt_int v) as [a|]; [|discriminate]. destruct (gt_int w) as [b|]; [|discriminate].
+    destruct (gio_add_edge G a b) as [G'|] eqn:Ea; [|discriminate].
+    intros H. inversion H; subst. apply add_edge_inv in Ea as [Hok ->].
+    right. right. exists G, (a, b). cbn. auto 10. }
+  intros H. inversion H; subst. left. auto.
+Qed.
+
+Lemma dm_line_exn k st raw e : gio_dimacs_line k st raw = GRaise e ->
+  e = EValueError \/ (e = EIndexError /\ gt_strip raw = []).
+Proof.
+  unfold gio_dimacs_line, gio_bind. destruct (gt_strip raw) as [|c t] eqn:Es.
+  - intros H. inversion H. right. auto.
+  - break_match; intros H; inversion H; subst; left; try reflexivity.
+    match goal with K : gio_new _ _ _ _ = GRaise _ |- _ => now apply new_exn in K end.
+Qed.
+
+Lemma with_edges_wf G es : gio_wf G -> Forall (edge_ok G) es ->
+  gio_wf (gio_with_edges G (insert_all (map (edge_norm (io_kind G)) es) (io_edges G))).
+Proof. intros Hwf Hok. eapply add_edges_wf; [exact Hwf|]. now apply add_edges_ok. Qed.
+
+(* the loop once the graph exists *)
+Lemma dm_loop_some k : forall ls st st' G, ds_G st = Some G -> gio_dimacs_loop k st ls = GOk st' ->
+  dm_ppairs ls = [] /\ ds_m st' = ds_m st /\ ds_cnt st' = ds_cnt st + Z.of_nat (length (dm_epairs ls)) /\
+  Forall (edge_ok G) (dm_epairs ls) /\
+  ds_G st' = Some (gio_with_edges G (insert_all (map (edge_norm (io_kind G)) (dm_epairs ls)) (io_edges G))).
+Proof.
+  induction ls as [|l t IH]; intros st st' G HG H.
+  - inversion H; subst. cbn. rewrite with_edges_self. repeat split; auto; try lia.
+  - cbn [gio_dimacs_loop] in H. destruct (gio_dimacs_line k st l) as [st1|] eqn:El; [|discriminate]. cbn [gio_bind] in H.
+    unfold dm_ppairs, dm_epairs. cbn [flat_map]. fold (dm_ppairs t) (dm_epairs t).
+    destruct (dm_line_inv _ _ _ _ El) as [(Hp & He & HG1 & Hm & Hc)|[(n & m & _ & _ & HN & _)|(G1 & e & He & Hp & HG1 & Hok & HG' & Hm & Hc)]].
+    + rewrite Hp, He. cbn [opt_list app]. rewrite HG in HG1. destruct (IH _ _ _ HG1 H) as (A & B & C & D & E).
+      repeat split; auto; congruence || lia.
+    + congruence.
+    + rewrite Hp, He. cbn [opt_list app length map]. rewrite HG in HG1. inversion HG1; subst G1.
+      destruct (IH _ _ _ HG' H) as (A & B & C & D & E). rewrite with_edges_kind, with_edges_edges, with_edges_twice in E.
+      split; [exact A|]. split; [congruence|]. split; [lia|]. split.
+      * constructor; [exact Hok|]. eapply Forall_impl; [|exact D]. intros x Hx. now apply edge_ok_with_edges in Hx.
+      * rewrite insert_all_cons. exact E.
+Qed.
+
+(* the loop from the initial state *)
+Lemma dm_loop_none k : forall ls st st', ds_G st = None -> gio_dimacs_loop k st ls = GOk st' ->
+  (dm_ppairs ls = [] /\ ds_G st' = None /\ ds_m st' = ds_m st /\ ds_cnt st' = ds_cnt st)
+  \/ (exists n m nm, dm_ppairs ls = [(n, m)] /\ 0 <= n /\ ds_m st' = m /\
+        ds_cnt st' = ds_cnt st + Z.of_nat (length (dm_epairs ls)) /\
+        Forall (edge_ok (mkIOG k nm n 0 [])) (dm_epairs ls) /\
+        ds_G st' = Some (gio_with_edges (mkIOG k nm n 0 []) (insert_all (map (edge_norm k) (dm_epairs ls)) []))).
+Proof.
+  induction ls as [|l t IH]; intros st st' HG H.
+  - inversion H; subst. left. cbn. auto.
+  - cbn [gio_dimacs_loop] in H. destruct (gio_dimacs_line k st l) as [st1|] eqn:El; [|discriminate]. cbn [gio_bind] in H.
+    unfold dm_ppairs, dm_epairs. cbn [flat_map]. fold (dm_ppairs t) (dm_epairs t).
+    destruct (dm_line_inv _ _ _ _ El) as [(Hp & He & HG1 & Hm & Hc)|[(n & m & Hp & He & _ & Hn & HG1 & Hm & Hc)|(G1 & e & _ & _ & HG1 & _)]].
+    + rewrite Hp, He. cbn [opt_list app]. rewrite HG in HG1.
+      destruct (IH _ _ HG1 H) as [(A & B & C & D)|(n & m & nm & A & B & C & D & E & F)].
+      * left. repeat split; auto; congruence.
+      * right. exists n, m, nm. repeat split; auto; congruence || lia.
+    + rewrite Hp, He. cbn [opt_list app]. destruct (dm_loop_some k _ _ _ _ HG1 H) as (A & B & C & D & E).
+      right. exists n, m, (ds_name st). rewrite A. cbn [io_kind io_edges] in E.
+      repeat split; auto; congruence || lia.
+    + congruence.
+Qed.
+
+(* reader soundness: exactly one problem line "p edge n m", m edge lines, all after it, all valid;
+   the graph has n vertices and exactly the edges of the edge lines *)
+Theorem dimacs_sound k text G : k <> KBipartite -> gio_read_dimacs k text = GOk G ->
+  exists n m, dm_ppairs (gt_lines text) = [(n, m)] /\ Z.of_nat (length (dm_epairs (gt_lines text))) = m /\
+    io_kind G = k /\ io_n G = n /\ io_r G = 0 /\ gio_wf G /\
+    Forall (edge_ok G) (dm_epairs (gt_lines text)) /\
+    (forall a b, In (a, b) (io_edges G) <-> In (a, b) (map (edge_norm k) (dm_epairs (gt_lines text)))).
+Proof.
+  intros Hk H. unfold gio_read_dimacs in H.
+  destruct (gio_dimacs_loop k (mkDS None [] (-1) 0) (gt_lines text)) as [st|] eqn:El; [|discriminate]. cbn [gio_bind] in H.
+  destruct (negb (ds_m st =? ds_cnt st)) eqn:Em; [discriminate|].
+  destruct (dm_loop_none k (gt_lines text) (mkDS None [] (-1) 0) st eq_refl El) as [(A & B & C & D)|(n & m & nm & A & B & C & D & E & F)].
+  - cbn [ds_m ds_cnt] in *. lia.
+  - rewrite F in H. inversion H; subst G. cbn [ds_cnt] in D. exists n, m.
+    cbn [gio_with_edges io_kind io_name io_n io_r io_edges].
+    split; [exact A|]. split; [lia|]. repeat (split; [reflexivity|]). split.
+    + apply (with_edges_wf (mkIOG k nm n 0 [])); [now apply new_wf|exact E].
+    + split.
+      * eapply Forall_impl; [|exact E]. intros e He. exact He.
+      * intros a b. rewrite insert_all_In. cbn [In]. tauto.
+Qed.
+
+Theorem dimacs_exn k text e : gio_read_dimacs k text = GRaise e ->
+  e = EValueError \/ (e = EIndexError /\ exists l, In l (gt_lines text) /\ gt_strip l = []).
+Proof.
+  unfold gio_read_dimacs. intros H.
+  destruct (gio_dimacs_loop k (mkDS None [] (-1) 0) (gt_lines text)) as [st|e1] eqn:El; cbn [gio_bind] in H.
+  - left. destruct (negb (ds_m st =? ds_cnt st)); [now inversion H|]. destruct (ds_G st); [discriminate|now inversion H].
+  - inversion H; subst e1. clear H. revert El. generalize (mkDS None [] (-1) 0). induction (gt_lines text) as [|l t IH]; intros st El; [discriminate|].
+    cbn [gio_dimacs_loop] in El. destruct (gio_dimacs_line k st l) as [st1|e2] eqn:E1; cbn [gio_bind] in El.
+    + destruct (IH _ El) as [->|[-> [l' [Hin Hs]]]]; [left; reflexivity|right]. split; [reflexivity|]. exists l'. split; [now right|exact Hs].
+    + inversion El; subst. destruct (dm_line_exn _ _ _ _ E1) as [->|[-> Hs]]; [left; reflexivity|right].
+      split; [reflexivity|]. exists l. split; [now left|exact Hs].
+Qed.
